@@ -71,6 +71,11 @@ var floatBits = []uint64{
 func isNaNBits(b uint64) bool { return b&0x7ff0000000000000 == 0x7ff0000000000000 && b&0x000fffffffffffff != 0 }
 
 type gen struct {
+	batchMode bool                      // section conc: operations are collected, not executed
+	batch     []func() qframe.QFrame    // the collected operations
+	batchOps  []string                  // their kinds
+	curOp     string
+	sharedCtx *eval.Context             // one evaluation context shared by all concurrent Eval calls
 	lastCnts []*int // callback counters of the instruction list generated last
 	inFapply bool
 	forceInv bool // all leaves of the clause being generated are inverse filters
@@ -575,6 +580,11 @@ func safely(f func() qframe.QFrame) (qf qframe.QFrame, pmsg string) {
 
 // finish executes the operation, records the observation of the new member and re-observes all earlier members.
 func (g *gen) finish(fid int, run func() qframe.QFrame) *hframe {
+	if g.batchMode {
+		g.batch = append(g.batch, run)
+		g.batchOps = append(g.batchOps, g.curOp)
+		return &hframe{id: -1, err: true, digest: "panic"}
+	}
 	qf, pmsg := safely(run)
 	hf := &hframe{id: fid, qf: qf}
 	if pmsg != "" {
@@ -1178,6 +1188,10 @@ func (g *gen) genInstr(f *hframe, cols []colInfo, bad bool, written map[string]b
 		}
 		in.Fn = types.ColumnName(c.name)
 		toks = append(toks, "-", "-", "col", tx.HexS(c.name))
+	case (kind == 2 || kind == 3) && g.batchMode:
+		v := g.genInt()
+		in.Fn = v
+		toks = append(toks, "-", "-", "c", tx.CInt(v))
 	case kind == 2 || kind == 3: // zero-arg function with state
 		start := r.Intn(50)
 		switch r.Intn(4) {
@@ -1251,6 +1265,9 @@ func (g *gen) genInstr(f *hframe, cols []colInfo, bad bool, written map[string]b
 		in.SrcCol1, in.SrcCol2 = c.name, c2.name
 		in.Fn = e.fn
 		toks = append(toks, tx.HexS(c.name), tx.HexS(c2.name), "f2", e.id)
+	}
+	if g.batchMode {
+		return instr{in, toks, nil}
 	}
 	cnt := new(int)
 	wrapped := counted(in.Fn, cnt)
@@ -1567,6 +1584,7 @@ func (g *gen) genOp() {
 		ops = strings.Split(only, "+")
 	}
 	op := ops[r.Intn(len(ops))]
+	g.curOp = op
 	switch op {
 	case "filter":
 		g.forceInv = r.P(1, 8)
@@ -1656,7 +1674,9 @@ func (g *gen) genOp() {
 		ins, toks := g.genInstrs(src, bad)
 		g.w.Line(append(append(head, "apply"), toks...)...)
 		g.finish(fid, func() qframe.QFrame { return src.qf.Apply(ins...) })
-		g.emitCounts(fid)
+		if !g.batchMode {
+			g.emitCounts(fid)
+		}
 	case "fapply":
 		c := g.genClause(src, 2, bad && r.P(1, 2))
 		g.inFapply = true
@@ -1664,7 +1684,9 @@ func (g *gen) genOp() {
 		g.inFapply = false
 		g.w.Line(append(append(append(head, "fapply"), c.toks...), toks...)...)
 		g.finish(fid, func() qframe.QFrame { return src.qf.FilteredApply(c.c, ins...) })
-		g.emitCounts(fid)
+		if !g.batchMode {
+			g.emitCounts(fid)
+		}
 	case "rownums":
 		name := g.newName(src)
 		if bad {
@@ -1690,6 +1712,9 @@ func (g *gen) genOp() {
 				ex = x
 			} else {
 				ex = qframe.Val(e.e)
+			}
+			if g.sharedCtx != nil {
+				return src.qf.Eval(dst, ex, eval.EvalContext(g.sharedCtx))
 			}
 			switch ctxKind {
 			case "d":
